@@ -82,6 +82,38 @@ Qed.
 Example C04_good_line_example : good_line letters [102; 111; 111; 32; 42; 98; 97; 114; 42]%Z.
 Proof. split; [exists 102%Z, [111; 111; 32; 42; 98; 97; 114; 42]%Z; split; reflexivity|cbn; intuition discriminate]. Qed.
 
+(* ---- known findings as theorems about the faithful model (the same inputs are replayed on the implementation by the
+   check; the correspondence run ties model and code) ---- *)
+(* KNOWN FINDING escaped-star-closes-emphasis, reproduced by the model: the canonical text  *a \\*b c*  (emphasis around 'a *b c') parses with the emphasis closed at the escaped star: <p><em>a \\</em>b c*</p> *)
+Example C04_escaped_star_closes_emphasis_refuted :
+  core_html true false [42; 97; 32; 92; 42; 98; 32; 99; 42; 10]%Z
+  = Ok [60; 112; 62; 60; 101; 109; 62; 97; 32; 92; 60; 47; 101; 109; 62; 98; 32; 99; 42; 60; 47; 112; 62; 10]%Z.
+Proof. vm_compute. reflexivity. Qed.
+
+(* KNOWN FINDING codespan-delimiter-inside-emphasis: *a `x*y` b* loses its emphasis *)
+Example C04_codespan_delimiter_inside_emphasis_refuted :
+  core_html true false [42; 97; 32; 96; 120; 42; 121; 96; 32; 98; 42; 10]%Z
+  = Ok [60; 112; 62; 42; 97; 32; 60; 99; 111; 100; 101; 62; 120; 42; 121; 60; 47; 99; 111; 100; 101; 62; 32; 98; 42; 60; 47; 112; 62; 10]%Z.
+Proof. vm_compute. reflexivity. Qed.
+
+(* KNOWN FINDING escaped-backtick-opens-codespan-in-link-text: the link is lost and a code span opens at the escaped backtick *)
+Example C04_escaped_backtick_opens_codespan_refuted :
+  core_html true false [91; 92; 96; 93; 40; 47; 117; 41; 32; 96; 99; 96; 10]%Z
+  = Ok [60; 112; 62; 91; 92; 60; 99; 111; 100; 101; 62; 93; 40; 47; 117; 41; 32; 60; 47; 99; 111; 100; 101; 62; 99; 96; 60; 47; 112; 62; 10]%Z.
+Proof. vm_compute. reflexivity. Qed.
+
+(* KNOWN FINDING blank-after-nested-list-keeps-item-tight: 'para' after a blank line is not a paragraph *)
+Example C04_blank_after_nested_list_refuted :
+  core_html true false [45; 32; 45; 32; 97; 10; 10; 32; 32; 112; 97; 114; 97; 10]%Z
+  = Ok [60; 117; 108; 62; 10; 60; 108; 105; 62; 60; 117; 108; 62; 10; 60; 108; 105; 62; 97; 60; 47; 108; 105; 62; 10; 60; 47; 117; 108; 62; 10; 112; 97; 114; 97; 60; 47; 108; 105; 62; 10; 60; 47; 117; 108; 62; 10]%Z.
+Proof. vm_compute. reflexivity. Qed.
+
+(* KNOWN FINDING escaped-backslash-before-closing-bracket: the link stays literal *)
+Example C04_escaped_backslash_before_bracket_refuted :
+  core_html true false [91; 120; 92; 10; 92; 92; 93; 40; 47; 117; 41; 32; 121; 10]%Z
+  = Ok [60; 112; 62; 91; 120; 60; 98; 114; 32; 47; 62; 10; 92; 93; 40; 47; 117; 41; 32; 121; 60; 47; 112; 62; 10]%Z.
+Proof. vm_compute. reflexivity. Qed.
+
 Print Assumptions C04_letters_are_inert.
 Print Assumptions C04_words_parse_to_one_text_token.
 Print Assumptions C04_lines_of_text_are_one_paragraph.
